@@ -219,7 +219,8 @@ type SigWorker struct {
 
 // NewSigWorker builds a worker.
 func NewSigWorker(nkeys int) (*SigWorker, error) {
-	r, err := rig.NewSignerRig(rig.SignerOpts{})
+	// The client is an administrator: what the generic endpoint refuses it refuses to administrators too.
+	r, err := rig.NewSignerRig(rig.SignerOpts{AdminIPs: []string{"10.0.0.1"}})
 	if err != nil {
 		return nil, err
 	}
@@ -228,7 +229,7 @@ func NewSigWorker(nkeys int) (*SigWorker, error) {
 
 // NewSigWorkerOn builds a worker on a caller-provided storage directory (never recycled).
 func NewSigWorkerOn(dir string, nkeys int) (*SigWorker, error) {
-	r, err := rig.NewSignerRig(rig.SignerOpts{Dir: dir})
+	r, err := rig.NewSignerRig(rig.SignerOpts{Dir: dir, AdminIPs: []string{"10.0.0.1"}})
 	if err != nil {
 		return nil, err
 	}
